@@ -28,7 +28,8 @@ E == << <<"3">>, <<"1", "2", "+">>, <<"1", "2">>, <<"1", "2", "swap">>, <<":", "
         <<":", "a", "1", ";", ":", "b", "2", ";", "a", "b", "+">>,
         <<":", "a", "1", ";", "8", "const", "c", ":", "b", "2", ";", ":", "d", "3", ";", "a", "b", "d", "c", "+", "+", "+">>,
         <<":", "k", "#(", "2", "3", "+", "#)", ";", "k", "k", "*">>,        \* a block inside a definition inside the block
-        <<"x", "1", "+">>,                                                   \* x: a constant of an earlier block (a local of the enclosing word has the same name)
+        <<"x", "1", "+">>,
+        <<"9", "#(", "4", "#)", "-">>,                                        \* a nested block with a value of the outer block below it                                                   \* x: a constant of an earlier block (a local of the enclosing word has the same name)
         <<"dup">>, <<"drop">>, <<"v">>, <<"5", "var", "w">>, <<"1", "0", "/">>, <<"9", "!", "v">>, <<"nil">>, <<"true">> >>
 \* positions: prefix / suffix around the block
 Pos == << [pre |-> <<"9">>, suf |-> <<>>],
